@@ -21,7 +21,8 @@ ADF12   line 1   (I5) NBSEL
 ADF15   line 1   (I5,4X,'/',A,'/')  NSEL  /ION PHOTON EMISSIVITY COEFFICIENTS/
         per block: (F8.1,' A',2I5,' /FILMEM = ',A8,'/TYPE = ',A5,' /INDM = T/ISEL = ',I4)   wavelength[A] NDENS NTE
                   (8E9.2) Ne[cm-3]; (8E9.2) Te[eV]; for ID=1..NDENS: (8E9.2) PEC[cm3 s-1] for IT=1..NTE
-        comment section with (full style only) the configuration table and the ISEL index table
+        comment section with (full style only) the configuration table and the ISEL index table; the index rows may be
+        printed in groups separated by empty comment lines / rulers / free-text comment lines, in any group order
 ADF21/22 line 1  (I5,' /SVREF=',1PE9.3,' /SPEC=',A2,' /DATE=',A8,' /CODE=',A)
         dashes; (2I5,' /TREF=',1PE9.3)  NBE NDENS; dashes; (8(1X,1PE9.3)) EB[eV/amu]; same: DENS[cm-3]; dashes;
         for ID=1..NDENS: (8(1X,1PE9.3)) SV(IE,ID), IE=1..NBE; dashes; (I5,' /EREF=',1PE9.3,' /NREF=',1PE9.3) NTT;
@@ -82,47 +83,59 @@ def records(values, fmt, per_line):
 # ------------------------------------------------------------------------------------------------
 
 def write_adf11(name, z_nuclear, z1_list, log_ne, log_te, blocks, resolved=False, z1_declared=None,
-                header_order="iprt", n_comment=3, date="18/11/01"):
+                header_order="iprt", n_comment=3, date="18/11/01", metastables=None, block_list=None, end_blank=0):
     """
     :param name: element name printed in the header (upper-cased here)
     :param z1_list: Z1 labels of the blocks actually written
     :param blocks: {z1: 2-D sequence [it][id]} log10 coefficients
     :param z1_declared: (IZ1MIN, IZ1MAX) printed in line 1 (default: min/max of z1_list)
-    :return: text, truth{ne, te, blocks{z1: list[it][id]}}
+    :param metastables: resolved files: numbers of metastables of the charge states IZ1MIN-1 .. IZ1MAX (default: all 1)
+    :param block_list: resolved files with several blocks per charge state: list of dict(z1, iprt, igrd, rows[it][id]) in
+                       file order (replaces z1_list / blocks)
+    :return: text, truth{ne, te, blocks{z1: list[it][id]} (last block of each z1), multi{z1: [list[it][id], ...]}}
     """
     nd, nt = len(log_ne), len(log_te)
+    if block_list is None:
+        block_list = [dict(z1=z1, iprt=1, igrd=1, rows=blocks[z1]) for z1 in z1_list]
+    z1_list = [b["z1"] for b in block_list]
     zmin, zmax = z1_declared if z1_declared else (min(z1_list), max(z1_list))
     out = [fI(z_nuclear, 5) + fI(nd, 5) + fI(nt, 5) + fI(zmin, 5) + fI(zmax, 5) + "     /" + name.upper().ljust(19)
            + "/GCR PROJECT        ", DASH80]
     if resolved:
         # number of metastables of each charge state IZ1MIN-1 .. IZ1MAX: one each
-        out.append("".join(fI(1, 5) for _ in range(zmax - zmin + 2)))
+        counts = list(metastables) if metastables else [1] * (zmax - zmin + 2)
+        # one record; files with more than 16 entries (not known among ADAS resolved files, which stop at neon) are
+        # written as one long record as well: a wrapped second record is refused by the anchored parser
+        out.append("".join(fI(c, 5) for c in counts))
         out.append(DASH80)
     f = lambda v: fF(v, 10, 5)
     l, t_ne = records(log_ne, f, 8)
     out += l
     l, t_te = records(log_te, f, 8)
     out += l
-    tb = {}
-    for z1 in z1_list:
+    tb, multi = {}, {}
+    for b in block_list:
+        z1 = b["z1"]
         if header_order == "iprt":
-            h = "-" * 20 + "/ IPRT= 1  / IGRD= 1  /--------/ Z1=%2d   / DATE= %s" % (z1, date)
+            h = "-" * 20 + "/ IPRT=%2d  / IGRD=%2d  /--------/ Z1=%2d   / DATE= %s" % (b["iprt"], b["igrd"], z1, date)
         else:
-            h = "-" * 21 + "/ IGRD= 1  / IPRT= 1  /--------/ Z1=%2d   / DATE= %s" % (z1, date)
+            h = "-" * 21 + "/ IGRD=%2d  / IPRT=%2d  /--------/ Z1=%2d   / DATE= %s" % (b["igrd"], b["iprt"], z1, date)
         out.append(h)
         rows = []
         for it in range(nt):
-            l, t = records(blocks[z1][it], f, 8)
+            l, t = records(b["rows"][it], f, 8)
             out += l
             rows.append(t)
         tb[z1] = rows
+        multi.setdefault(z1, []).append(rows)
     out.append("C" + "-" * 79)
     out.append("C")
     for k in range(n_comment):
         out.append("C  EFFECTIVE COEFFICIENTS, GENERALISED COLLISIONAL-RADIATIVE: COMMENT LINE %d" % (k + 1))
     out.append("C")
     out.append("C" + "-" * 79)
-    return "\n".join(out) + "\n", dict(ne=t_ne, te=t_te, blocks=tb)
+    out += [""] * end_blank
+    return "\n".join(out) + "\n", dict(ne=t_ne, te=t_te, blocks=tb, multi=multi)
 
 
 # ------------------------------------------------------------------------------------------------
@@ -130,7 +143,7 @@ def write_adf11(name, z_nuclear, z1_list, log_ne, log_te, blocks, resolved=False
 # ------------------------------------------------------------------------------------------------
 
 def write_adf2x(zt, spec, svref, tref, eb, dens, sv, eref, nref, tt, svt, code="ADAS310", date="17/10/97",
-                n_comment=3):
+                n_comment=3, trailer="full", end_blank=0):
     """
     :param sv: 2-D sequence [id][ie]  (one READ list of NBE energies per density)
     :return: text, truth{zt, svref, tref, eb, dens, sv[id][ie], eref, nref, tt, svt}
@@ -161,11 +174,14 @@ def write_adf2x(zt, spec, svref, tref, eb, dens, sv, eref, nref, tt, svt, code="
     out.append(DASH80)
     l, t_svt = records(svt, f, 8)
     out += l
-    out.append(DASH80)
-    out.append("C")
-    for k in range(n_comment):
-        out.append("C  BEAM STOPPING / EMISSION / POPULATION COEFFICIENT: COMMENT LINE %d" % (k + 1))
-    out.append("C" + "-" * 79)
+    if trailer != "none":          # 'none': the file ends with the last data record
+        out.append(DASH80)
+    if trailer == "full":
+        out.append("C")
+        for k in range(n_comment):
+            out.append("C  BEAM STOPPING / EMISSION / POPULATION COEFFICIENT: COMMENT LINE %d" % (k + 1))
+        out.append("C" + "-" * 79)
+    out += [""] * end_blank
     truth = dict(zt=int(zt), svref=val(s_svref), tref=val(s_tref), eref=val(s_eref), nref=val(s_nref),
                  eb=t_eb, dens=t_d, sv=t_sv, tt=t_tt, svt=t_svt)
     return "\n".join(out) + "\n", truth
@@ -179,7 +195,7 @@ ADF12_SECTIONS = (("ENER", 24), ("QENER", 24), ("TIEV", 12), ("QTIEV", 12), ("DE
                   ("ZEFF", 12), ("QZEFF", 12), ("BMAG", 12), ("QBMAG", 12))
 
 
-def write_adf12(blocks, expchar="D", labels=True, nbsel=None, symbol="C", zion=6):
+def write_adf12(blocks, expchar="D", labels=True, nbsel=None, symbol="C", zion=6, trailer="full", end_blank=0):
     """
     :param blocks: list of dict(upper, lower, qefref, parmref[5], ENER.., QENER.. (actual-length sequences))
     :param nbsel: the count printed in line 1 (default: len(blocks))
@@ -213,9 +229,14 @@ def write_adf12(blocks, expchar="D", labels=True, nbsel=None, symbol="C", zion=6
             out += l
             tr[nm] = t[:len(vals)]
         truth.append(tr)
-    out.append("C" + "-" * 79)
-    out.append("C  CHARGE EXCHANGE EFFECTIVE EMISSION COEFFICIENTS")
-    out.append("C" + "-" * 79)
+    if trailer != "none":
+        out.append("C" + "-" * 79)
+        out.append("C  CHARGE EXCHANGE EFFECTIVE EMISSION COEFFICIENTS")
+        if trailer == "long":
+            out += ["C", "C  ISEL  DONOR  RECEIVER  TRANSITION   1.00D+00 2.00D+00", "C  ----  -----  --------  ----------", "C",
+                    "C  NOTES: 24 12 24 12 12"]
+        out.append("C" + "-" * 79)
+    out += [""] * end_blank
     return "\n".join(out) + "\n", truth
 
 
@@ -235,7 +256,7 @@ def config_name(shells, mult, L, jtext):
 
 
 def write_adf15(ion_title, z_nuclear, charge, blocks, style, levels=None, a_adjacent=False, lower_case=False,
-                nsel=None, wl_decimals_index=1):
+                nsel=None, wl_decimals_index=1, index_order=None, index_breaks=None, trailing=1, end_blank=0):
     """
     :param blocks: list of dict(isel, type ('EXCIT'|'RECOM'|'CHEXC'), upper, lower, wavelength, ne[], te[], pec[id][it])
                    upper/lower: principal quantum numbers (style 'hydrogen') or level indices (other styles)
@@ -287,6 +308,7 @@ def write_adf15(ion_title, z_nuclear, charge, blocks, style, levels=None, a_adja
         c.append("C")
     c.append("C  ISEL  WAVELENGTH      TRANSITION       TYPE   METASTABLE  IMET NMET IP")
     c.append("C  ----  ----------  -----------------    -----  ----------  ---- ---- --")
+    rows = []
     for tr, b in zip(truth, blocks):
         s_wl = fF(b["wavelength"], 10, wl_decimals_index)
         tr["wl_index"] = val(s_wl)
@@ -296,7 +318,19 @@ def write_adf15(ion_title, z_nuclear, charge, blocks, style, levels=None, a_adja
             lu, ll = levels[b["upper"]], levels[b["lower"]]
             trans = "%3d(%d)%d(%s)-%3d(%d)%d(%s)" % (b["upper"], lu["mult"], lu["L"], lu["jtext"],
                                                    b["lower"], ll["mult"], ll["L"], ll["jtext"])
-        c.append("C  %3d.  %s    %s %s    1     1    1   1" % (b["isel"], s_wl, trans, b["type"]))
-    c += ["C", "C  NOTES: produced by an independent writer for verification purposes", "C",
-          "C" + "-" * 71]
+        rows.append("C  %3d.  %s    %s %s    1     1    1   1" % (b["isel"], s_wl, trans, b["type"]))
+    # the index rows may be printed in groups: `index_order` = row positions in print order, `index_breaks` =
+    # {print position: separator kinds printed before that row} with kinds 'blank' (empty comment line), 'ruler', 'text'
+    SEP = {"blank": ["C"], "ruler": ["C  ----  ----------  -----------------    -----  ----------  ---- ---- --"],
+           "text": ["C  further lines of the same ion (other driving population):"]}
+    order = list(index_order) if index_order is not None else list(range(len(rows)))
+    for pos, k in enumerate(order):
+        for kind in (index_breaks or {}).get(pos, ()):
+            c += SEP[kind]
+        c.append(rows[k])
+    c.append("C")
+    for k in range(trailing):
+        c += ["C  NOTES: produced by an independent writer for verification purposes (note %d)" % (k + 1), "C"]
+    c.append("C" + "-" * 71)
+    c += [""] * end_blank
     return "\n".join(out + c) + "\n", truth
